@@ -72,6 +72,9 @@ func (sh *SumHead) ReadFrom(c *rsyncwire.Conn) error {
 	if sh.RemainderLength < 0 || sh.RemainderLength > sh.BlockLength {
 		return fmt.Errorf("invalid remainder length %d", sh.RemainderLength)
 	}
+	if sh.ChecksumCount > 0 && sh.BlockLength == 0 {
+		return fmt.Errorf("invalid block length %d for checksum count %d", sh.BlockLength, sh.ChecksumCount)
+	}
 
 	return nil
 }
